@@ -43,10 +43,16 @@ class Pool:
         return self.values[i]
 
 
+CURRENT_TAG = [0]
+RAISED = []          # (tag, code) of every callback exception (codes >= 20) created during a run
+
+
 class UserError(Exception):
     def __init__(self, code):
         super().__init__(f"user-error-{code}")
         self.code = code
+        if code >= 20:
+            RAISED.append((CURRENT_TAG[0], code))
 
 
 LIB_ERRORS = {"ArgumentOutOfRangeException": -1, "SequenceContainsNoElementsError": -2,
@@ -105,7 +111,9 @@ class HotSource:
 def run_hot(build, inputs, dispose_at=None):
     """inputs: list of ('N', value) | ('E', exception) | ('C',).
     -> dict(out=[(tag, kind, payload)], escapes=[(tag, exc)], sublog=[...], build_error=None|exc)"""
-    clock = [0]
+    clock = CURRENT_TAG
+    clock[0] = 0
+    del RAISED[:]
     src = HotSource(clock)
     out, escapes = [], []
     try:
@@ -130,7 +138,7 @@ def run_hot(build, inputs, dispose_at=None):
         except Exception as e:
             escapes.append((k + 1, e))
     return {"out": out, "escapes": escapes, "sublog": src.log, "build_error": None,
-            "disposed_at": disposed_at, "n_subscriptions": len(src.observers)}
+            "disposed_at": disposed_at, "n_subscriptions": len(src.observers), "raised": list(RAISED)}
 
 
 def g_ev(kind, payload, enc):
